@@ -50,6 +50,7 @@ type PropSpec struct {
 	Explain   string
 	Technique string
 	OnlyContracted bool // consider only functions that have a contract (the others are listed as not under contract)
+	TimeoutQuick   int  // per-obligation time-out of the quick tier where the default (10 s) is too tight
 }
 
 type CheckCtx struct {
@@ -178,6 +179,9 @@ func checkMain(args []string) int {
 	}
 	c := &CheckCtx{Spec: spec, Tier: tier, Seed: seed, Repo: *repo, Units: map[string]*UnitResult{}, VCs: map[string]*VC{}, t0: time.Now(), Data: map[string]any{}}
 	c.Timeout = 10
+	if spec.TimeoutQuick > 0 {
+		c.Timeout = spec.TimeoutQuick
+	}
 	if tier == "thorough" {
 		c.Timeout = 60
 	}
